@@ -171,7 +171,7 @@ ScimOrder(sf, attrs) == CASE sf.k = "cmp" -> sf.op \in {"gt", "ge", "lt", "le"} 
    ldap-substring-split : a substring assertion with two or more parts is split into independent terms
    scim-order-string    : lt/le/gt/ge on a string attribute (LessThan is always false on strings)
    andnot-isolated / andnot-partial : the two filter2idl defects of C01 on the translated, wrapped, optimised filter *)
-ProtoSig(kind, pf, wrapped, db, idx, c) ==
+ProtoSig(kind, pf, wrapped, db, idx, c) ==   \* c: the PRE-repair configuration (fix = FALSE) for the C01 classes
   IF kind = "ldap" /\ LdapSplit(pf) THEN "ldap-substring-split"
   ELSE IF kind = "scim" /\ ScimOrder(pf, StrAttrs) THEN "scim-order-string"
   ELSE IF HasRej(wrapped) \/ HasEmpty(wrapped) THEN "none"
